@@ -65,7 +65,12 @@ impl Session {
                         if close {break Upgrade::None}
                     }
                     Ok(None) => break Upgrade::None,
-                    Err(res) => {res.send(&mut self.connection).await;},
+                    Err(res) => {
+                        /* a refused request is answered and ends the session: where it ends is not known,
+                           so nothing after it may be read as the next request ( RFC 9112 2.2 ) */
+                        res.send(&mut self.connection).await;
+                        break Upgrade::None
+                    }
                 }
             }
         }).await {
